@@ -38,7 +38,7 @@ def gen_cases(rng, tier, rnd):
                 s, rank = gencfg.rename(c, rng)
                 cases.append({'spec': s, 'rank': rank, 'abs': hx(c), 'hint': 'S', 'phase': rng.randint(0, 5)})
     while len(cases) < n:
-        a = gencfg.abstract_cfg(rng)
+        a = gencfg.cnf_shaped_cfg(rng) if rng.random() < 0.08 else gencfg.abstract_cfg(rng)
         big = rng.random() < 0.12
         if big:
             a = gencfg.pad_variables(rng, a, rng.randint(23, 30))
